@@ -365,6 +365,8 @@ def config_cases(tier):
         out.append(("alias-noise", order))
         out.append(("alias-device", order))
         out.append(("alias-register", order))
+        out.append(("alias-layout", order))
+        out.append(("alias-layout-same-traps", order))
     return out
 
 
@@ -569,6 +571,27 @@ def check_alias(kind, order):
                                  max_radial_distance=None, channel_objects=chans, dmm_objects=dmms, supports_slm_mask=bool(dmms), **kw)
 
         rt = lambda o: VirtualDevice.from_abstract_repr(o.to_abstract_repr())  # noqa: E731
+    elif kind in ("alias-layout", "alias-layout-same-traps"):
+        # layouts through their PUBLIC codec; in the second family the three layouts have the same traps (equal and of equal hash by
+        # the library's definition) and differ in slug / class only - each still comes back as itself, whatever was encoded before
+        from pulser.register.register_layout import RegisterLayout
+        from pulser.register.special_layouts import TriangularLatticeLayout
+
+        tri = TriangularLatticeLayout(6, 5.0)
+        same = kind.endswith("same-traps")
+
+        def make(i):
+            if same:
+                return [RegisterLayout(tri.coords, slug="calibrated_2024"), RegisterLayout(tri.coords, slug="calibrated_2025"), RegisterLayout(tri.coords)][i]
+            return [RegisterLayout([(0.0, 0.0), (5.0, 0.0), (0.0, 5.0)], slug="a"), RegisterLayout([(0.0, 0.0), (6.0, 0.0), (0.0, 6.0), (6.0, 6.0)], slug="a"),
+                    RegisterLayout([(1.0, 0.0, 0.0), (0.0, 5.0, 5.0)])][i]
+
+        def rt(o):
+            b = RegisterLayout.from_abstract_repr(o.to_abstract_repr())
+            if b.slug != o.slug or b != o or json.loads(o.to_abstract_repr()).get("slug") != o.slug:
+                out.append((f"C17:layout-round-trip-depends-on-what-was-encoded-before:{'same-traps' if same else 'distinct'}",
+                            f"order {order}: layout with slug {o.slug!r} is encoded as {o.to_abstract_repr()[:120]}"))
+            return b
     else:
         from pulser import Register
         from pulser.json.abstract_repr.deserializer import deserialize_abstract_register
